@@ -297,6 +297,28 @@ int16_t COTmrDelete(CO_TMR *tmr, int16_t actId)
         }
     }
 
+    /* not found: search in list of actions, which are elapsed and
+     * waiting for their execution within COTmrProcess()
+     */
+    if (del == 0) {
+        tx   = 0;
+        prev = 0;
+        act  = tmr->Run;
+        while ((act != 0) && (del == 0)) {
+            if (act->Id == (uint16_t)actId) {
+                del = act;
+                if (prev == 0) {
+                    tmr->Run   = act->Next;
+                } else {
+                    prev->Next = act->Next;
+                }
+                result = 0;
+            }
+            prev = act;
+            act  = act->Next;
+        }
+    }
+
     /* delete action */
     if (del != 0) {
         del->CycleTicks = 0;
@@ -381,7 +403,6 @@ void COTmrProcess(CO_TMR *tmr)
     CO_TMR_TIME   *tn;
     CO_TMR_TIME   *res;
     CO_TMR_ACTION *act;
-    CO_TMR_ACTION *next;
     CO_TMR_FUNC    func;
     void          *para;
 
@@ -390,7 +411,7 @@ void COTmrProcess(CO_TMR *tmr)
         tn            = tmr->Elapsed;
         tmr->Elapsed  = tn->Next;
 
-        act           = tn->Action;
+        tmr->Run      = tn->Action;
         tn->Action    = 0;
         tn->ActionEnd = 0;
         tn->Delta     = 0;
@@ -399,31 +420,32 @@ void COTmrProcess(CO_TMR *tmr)
         COTmrUnlock();
 
         /* loop through all actions of elapsed timer event */
-        while (act != 0) {
-            next      = act->Next;
+        while (tmr->Run != 0) {
+            /* fetch next action: a callback function is allowed to
+             * delete an action which is still waiting in this list
+             */
+            COTmrLock();
+            act       = tmr->Run;
+            tmr->Run  = act->Next;
             act->Next = 0;
             func      = act->Func;
             para      = act->Para;
+            res       = tn;
 
             if (act->CycleTicks == 0) {
                 act->Para = 0;
                 act->Func = (CO_TMR_FUNC)0;
-                COTmrLock();
                 act->Next = tmr->Acts;
                 tmr->Acts = act;
-                COTmrUnlock();
-
             } else {
-                COTmrLock();
                 res = COTmrInsert(tmr, act->CycleTicks, act);
-                COTmrUnlock();
-                if (res == (CO_TMR_TIME*)0) {
-                    tmr->Node->Error = CO_ERR_TMR_CREATE;
-                }
+            }
+            COTmrUnlock();
+            if (res == (CO_TMR_TIME*)0) {
+                tmr->Node->Error = CO_ERR_TMR_CREATE;
             }
             /* execute callback function */
             func(para);
-            act = next;
         }
     }
 }
@@ -442,6 +464,7 @@ static void COTmrReset(CO_TMR *tmr)
 
     tmr->Use     = 0;
     tmr->Elapsed = 0;
+    tmr->Run     = 0;
     tmr->Free    = tmr->TPool;
     tmr->Acts    = tmr->APool;
 
